@@ -5,6 +5,31 @@ V = os.path.dirname(os.path.dirname(os.path.abspath(__file__)))
 props = [json.loads(l) for l in open(os.path.join(V, "properties.jsonl"))]
 
 CHECKS = {
+ "C01": dict(
+    level="model_checking",
+    text="Heap.tla transcribes Heap::collect pass by pass (mark_roots, trace_references loop, sweep) with root handles; "
+         "TLC explores every mutator history over 4 boxes x every collection schedule and checks GcSafety (no reachable box "
+         "reclaimed, reachability over ALL pointers an object holds), Reclaimed and NoGreyLeft (the trace loop terminates - which "
+         "exposed a livelock in the real collector, now fixed). Every history ending in a collection is replayed on the real heap "
+         "(reclaimed set after every step). The per-kind pointers of the real object graph are bound by 34 edge probes and the 546 "
+         "repository scripts run under never/always/periodic schedules with swept objects quarantined: any access to a reclaimed "
+         "object, or any output difference between schedules, is a violation.",
+    note="Exhaustive only for the collector core within the bound (4 boxes, 2 pointer slots); the whole-program layer is "
+         "exploration over a fixed program set under dominating schedules. Trusts the quarantine hook to turn use-after-free into an event.",
+    technique="TLA+ spec + TLC exhaustive + history replay on memory::Heap; schedule-differential runs with quarantine",
+    design="4 C01"),
+ "C16": dict(
+    level="model_checking",
+    text="Heap.tla under the paced policy (collect iff bytes >= threshold; threshold = 2 x bytes after collection; budget 4 units) "
+         "is explored exhaustively over alloc/drop histories with invariants Pacing and Reclaimed; the histories are replayed on the "
+         "optimised build with 16 KiB objects so that every threshold equality is hit, comparing bytes_allocated, collection_threshold "
+         "and the reclaimed set after every step (and through UniqueRoot -> Root conversion). For whole programs every Alloc/Collect "
+         "event recorded from the real heap is validated by TraceHeap.tla (decision to collect, accounting, threshold, Pacing invariant "
+         "at every allocation), and n vs 2n loop iterations must leave identical live object counts and bytes.",
+    note="What a collection reclaims in whole programs is taken from the trace (C01 decides which objects must survive). "
+         "Loop programs are a fixed catalogue of 12 shapes, not yet TLC-generated.",
+    technique="TLA+ spec + TLC exhaustive + history replay + trace validation of recorded allocation events",
+    design="4 C16"),
  "C11": dict(
     level="model_checking",
     text="InternTable.tla is an executable twin of vm::string_store (find_index / insert / adjust_capacity). TLC "
